@@ -219,7 +219,7 @@ def make_judges(ctx):
             res = ev.result_snap
         elif ev.op in ('sum', 'cumsum', 'max', 'min', 'prod', 'cumprod', 'trace', 'dot') and ev.kind == 'method':
             route = 'method:%s' % ev.op
-            srcs = [p for o, p in zip(ev.operands, ev.pre) if p is not None and (o is ev.receiver or o in ev.args)]
+            srcs = [p for o, p in zip(ev.operands, ev.pre) if p is not None and (o is ev.receiver or any(o is a for a in ev.args))]
             res = ev.result_snap
         elif ev.op == '__init__':
             d = init_arguments(ev)
